@@ -733,6 +733,19 @@ def gen_sync_read(ctx):
         sl = rng.choice([None, None, [0, ns], [0, ns], [3, ns - 2], [-15, ns + 5], [ns // 2, ns // 2], [5, 3],
                          [1, 10000], [-10 ** 6, 10 ** 6], [-7, -1]])
         fl = rng.choice(["default", "default", "default", 10, 0, None, 50])
+        # the model takes the subtracted floor as data; keep the float32 subtraction exact: the two order
+        # statistics np.percentile interpolates between must coincide, otherwise read without the floor
+        if typ == "nidq" and fl not in (0, None):
+            st, sp = (0, 10000) if sl is None else sl
+            a_, b_ = _adjust(st, ns), _adjust(sp, ns)
+            nsel = max(0, b_ - a_)
+            for c in range(counts[2]):
+                srt = sorted(D[t][counts[0] + counts[1] + c] for t in range(a_, a_ + nsel))
+                if nsel:
+                    lo = int(0.1 * (nsel - 1))
+                    if srt[lo] != srt[min(lo + 1, nsel - 1)]:
+                        fl = rng.choice([0, None])
+                        break
         c = {"kind": "sync_read", "typ": typ, "counts": counts, "ns": ns, "nc": nc, "range_max": range_max,
              "data": [v for row in D for v in row], "slice": sl, "threshold": thr, "floor": fl}
         cases.append(c)
